@@ -165,6 +165,18 @@ def run(chk):
                 chk.fail("GMM ML (means only, threshold 1e-13) on a Dask array with serialised tasks runs %d iterations and in memory %d; largest difference of the means %.3g"
                          % (lcL.count, nL, float(np.abs(np.asarray(mD.means) - np.asarray(mL.means)).max())),
                          {"X": hexlist(Xg), "w": hexlist(w), "mu": hexlist(mu + 0.8 * s), "var": hexlist(var), "threshold": 1e-13, "isolated": True})
+        # ---- training switches turned on AFTER construction (attribute assignment), then trained on serialised workers: as in memory
+        cfgA = dict(w=w, mu=mu, var=var, thr=None, sw=(True, False, False), eps=float(np.finfo(float).eps), cap=2, cthr=None)
+        mA1, _ = gt.build_machine(cfgA)
+        mA2, _ = gt.build_machine(cfgA)
+        for mm_ in (mA1, mA2):
+            mm_.update_variances, mm_.update_weights = True, True
+        gt.run_fit(mA1, Xg)
+        dasksched.run_under(23 + rd, True, lambda: mA2.fit(da.from_array(Xg, chunks=((len(Xg) // 2, len(Xg) - len(Xg) // 2), (Dg,)))))
+        chk.count(1, key=("GMM ML, switches set after construction, serialised tasks",))
+        if gt.well_conditioned(mA1, Xg) and not (close(mA2.means, mA1.means, rtol=1e-8, atol=1e-10) and close(mA2.variances, mA1.variances, rtol=1e-7, atol=1e-10) and close(mA2.weights, mA1.weights, rtol=1e-8, atol=1e-10)):
+            chk.fail("GMM ML with update_variances / update_weights switched on after construction: training on a Dask array with serialised tasks differs from the in-memory result",
+                     {"X": hexlist(Xg), "w": hexlist(w), "mu": hexlist(mu), "var": hexlist(var), "isolated": True})
         # ---- a raised count threshold is a rule about the TOTAL count of a component, not about its count inside one block: one EM iteration from the
         #      generating parameters (well conditioned) on single-row blocks and on a random blocking, every round
         for thr_n in (0.3, 0.05):
